@@ -140,6 +140,12 @@ def fam_suppress(p: Dict[str, Any], problems: List[str], w: World) -> Tuple[str,
         register(w, host, make_info(Svc(TA, "own._a._tcp.local.", "own.local.", 80, b"", [bytes([10, 0, 0, 1])], [])))
         register(w, host, make_info(Svc("_b._tcp.local.", "ownb._b._tcp.local.", "own.local.", 81, b"", [bytes([10, 0, 0, 1])], [])))
     w.advance(3000)
+    if p["rel"] == "stale-held":
+        # a pointer this instance has held for more than half of its TTL: it is still cached, but the instance would not list
+        # it as a known answer any more - it needs to hear it again
+        w.net.inject(host, wire.response([ptr(7, 4500)]), ("10.0.0.50", 5353))
+        w.settle()
+        w.advance(2_400_000)
     base = [ptr(1, 4500), ptr(2, 4500)]
     w.net.inject(host, wire.response(base), ("10.0.0.50", 5353))
     w.settle()
@@ -160,8 +166,11 @@ def fam_suppress(p: Dict[str, Any], problems: List[str], w: World) -> Tuple[str,
 
     if heard:
         known_at_t2 = list(base) + [own_ptr]
-        first_ka = {"empty": [], "subset": [base[0]], "equal": known_at_t2, "superset": known_at_t2 + [ptr(9, 4500)]}[rel]
-        contained = rel != "superset"
+        first_ka = {"empty": [], "subset": [base[0]], "equal": known_at_t2, "superset": known_at_t2 + [ptr(9, 4500)],
+                    "stale-held": known_at_t2 + [ptr(7, 4500)]}[rel]
+        # (RFC 6762 s.7.3: suppressed only if the list holds no record this host "would not also put in its own" list - a
+        # record it holds with half of its TTL gone is not one it would list, and nobody will answer it to the other asker)
+        contained = rel not in ("superset", "stale-held")
         # the heard query may carry further QM questions before or after ours (all must be remembered)
         qs = {"single": [("Q", TA, 12, 1)], "ours-first": [("Q", TA, 12, 1), ("Q", "_b._tcp.local.", 12, 1)],
               "ours-last": [("Q", "_b._tcp.local.", 12, 1), ("Q", "ownb._b._tcp.local.", 33, 1), ("Q", TA, 12, 1)],
@@ -225,7 +234,7 @@ def fam_suppress(p: Dict[str, Any], problems: List[str], w: World) -> Tuple[str,
                         f"{'heard' if heard else 'asked'} with known answers it fully knows")
     if not suppressed_expected and not asked:
         why = "QU questions are never suppressed" if qu_second else (
-            f"{gap} ms > 999 ms" if gap > 999 else "the earlier asker listed a known answer this instance does not hold")
+            f"{gap} ms > 999 ms" if gap > 999 else "the earlier asker listed a known answer this instance does not hold with more than half of its TTL")
         problems.append(f"suppression: the question was not asked although {why}")
     return host.name, t1
 
@@ -372,6 +381,8 @@ def points(tier: str) -> List[Dict[str, Any]]:
                     if first == "heard" and second == "QM" and gap in (1, 500, 999, 1000):
                         pts.append({"fam": "suppress", "first": first, "gap": gap, "rel": rel, "second": second,
                                     "heard_split": True})
+                    if first == "heard" and second == "QM" and gap in (1, 500, 999) and rel == "equal":
+                        pts.append({"fam": "suppress", "first": first, "gap": gap, "rel": "stale-held", "second": second})
                     if first == "heard" and second == "QM" and gap in (500, 998, 999, 1000):
                         for e in (1, 600, 999, 1500):
                             pts.append({"fam": "suppress", "first": first, "gap": gap, "rel": rel, "second": second,
